@@ -210,7 +210,98 @@ func c04Oracle(tcp bool) func(tr *mc.Trace) []h.Violation {
 	}
 }
 
+// c04Reconnect: telegrams accepted while the application is not reading must survive a reconnect
+// (the tunnel stays open); after the reconnect numbering restarts at 0 on the new channel.
+func c04Reconnect() func() {
+	return func() {
+		sock := fakesock.New("udp")
+		gw := NewGateway(sock, c04Channel)
+		t, err := knx.NewTunnelOnSocket(sock, knxnet.TunnelLayerData, TCfg(100, 350, 1000000))
+		if err != nil {
+			return
+		}
+		gw.NextChannel = c04Channel + 1         // assigned by the reconnect
+		before := 1 + mc.Choose(2, mc.Free)     // telegrams accepted before the reconnect
+		readFirst := mc.Choose(2, mc.Free) == 1 // the application reads one of them before the reconnect
+		ch := uint8(c04Channel)
+		id := 0
+		inject := func(seq uint8) {
+			mc.Log(Inj{ch, seq, id})
+			sock.Deliver(&knxnet.TunnelReq{Channel: ch, SeqNumber: seq, Payload: Msg(id)})
+			id++
+		}
+		read := func() bool {
+			c0 := mc.RecvC(t.Inbound())
+			c1 := mc.RecvC(mc.After(200 * ms))
+			if mc.Select(false, c0, c1) == 0 && c0.Ok {
+				mc.Log(Rx{ID: MsgID(c0.V), From: "tunnel"})
+				return true
+			}
+			return false
+		}
+		for i := 0; i < before; i++ {
+			inject(uint8(i))
+		}
+		mc.Sleep(1 * ms)
+		if readFirst {
+			read()
+		}
+		// the gateway ends the connection; the client reconnects and gets the next channel
+		mc.Log(Note("disconnect request"))
+		sock.Deliver(&knxnet.DiscReq{Channel: ch})
+		mc.Sleep(10 * ms)
+		ch = c04Channel + 1
+		mc.Log(Note("epoch 2"))
+		inject(0)
+		inject(1)
+		mc.Sleep(1 * ms)
+		for read() {
+		}
+		t.Close()
+	}
+}
+
+func c04ReconnectOracle(tr *mc.Trace) []h.Violation {
+	vs := generic(tr, "C04", true)
+	want := map[int]bool{}
+	got := map[int]int{}
+	acks := map[string]int{}
+	for _, e := range tr.Log {
+		switch x := e.V.(type) {
+		case Inj:
+			want[x.ID] = true // every injected request is in sequence for its epoch
+			acks[fmt.Sprintf("%d/%d", x.Ch, x.Seq)]--
+		case Rx:
+			got[x.ID]++
+		case fakesock.Sent:
+			if r, ok := x.Svc.(*knxnet.TunnelRes); ok {
+				acks[fmt.Sprintf("%d/%d", r.Channel, r.SeqNumber)]++
+			}
+		}
+	}
+	if tr.Reason != "main-returned" {
+		return vs
+	}
+	for id := range want {
+		if got[id] == 0 {
+			vs = append(vs, h.Violation{Class: "C04:telegram-lost-across-reconnect", Msg: fmt.Sprintf("telegram %d was in sequence, was acknowledged, and the tunnel stayed open (it reconnected), yet it never reached Inbound; received: %v", id, got)})
+			break
+		}
+		if got[id] > 1 {
+			vs = append(vs, h.Violation{Class: "C04:delivered-twice", Msg: fmt.Sprintf("telegram %d delivered %d times", id, got[id])})
+		}
+	}
+	for k, n := range acks {
+		if n != 0 {
+			vs = append(vs, h.Violation{Class: "C04:acks-differ", Msg: fmt.Sprintf("acknowledgements for (channel/seq) %s: %+d relative to one per in-sequence request", k, n)})
+			break
+		}
+	}
+	return vs
+}
+
 func init() {
+	register("both", &h.Scenario{Name: "C04-udp-stalled-reader-across-reconnect", Prop: "C04", P: 2, F: 0, D: 2, Run: c04Reconnect(), Check: c04ReconnectOracle})
 	register("both", &h.Scenario{Name: "C04-udp-stream4", Prop: "C04", P: 1, F: 0, D: 1, Run: c04Run(4, false, 0, 3), Check: c04Oracle(false)})
 	register("quick", &h.Scenario{Name: "C04-udp-stream5-p0", Prop: "C04", P: 0, F: 0, D: 0, Run: c04Run(5, false, 0, 3), Check: c04Oracle(false)})
 	register("both", &h.Scenario{Name: "C04-udp-wrap254+stream3", Prop: "C04", P: 1, F: 0, D: 1, Run: c04Run(3, false, 254, 2), Check: c04Oracle(false)})
